@@ -33,6 +33,8 @@ type faultProxy struct {
 	upstream string
 	mode     string // pass | close | stall | garbage | negsize | oversize | badident (next connection only)
 	conns    map[net.Conn]bool
+	frozen   int32                  // established connections stop carrying data in either direction (a black hole)
+	late     map[net.Conn]chan bool // upstream halves of frozen connections, closed when told to
 }
 
 func newFaultProxy(upstream string) (*faultProxy, error) {
@@ -40,7 +42,7 @@ func newFaultProxy(upstream string) (*faultProxy, error) {
 	if err != nil {
 		return nil, err
 	}
-	p := &faultProxy{ln: ln, upstream: upstream, mode: "pass", conns: map[net.Conn]bool{}}
+	p := &faultProxy{ln: ln, upstream: upstream, mode: "pass", conns: map[net.Conn]bool{}, late: map[net.Conn]chan bool{}}
 	go p.serve()
 	return p, nil
 }
@@ -64,6 +66,29 @@ func (p *faultProxy) set(mode, upstream string, cut bool) {
 	for _, c := range cs {
 		c.Close()
 	}
+}
+
+// freeze: every connection established so far goes half-open -- the client side is black-holed and, when the client
+// gives up and closes, the upstream side STAYS OPEN until reap() (the far end has not noticed). New connections pass.
+func (p *faultProxy) freeze() {
+	p.mu.Lock()
+	for u := range p.late {
+		select {
+		case p.late[u] <- true: // freeze this pair
+		default:
+		}
+	}
+	p.mu.Unlock()
+}
+
+// reap: the far end finally sees the old connections die
+func (p *faultProxy) reap() {
+	p.mu.Lock()
+	for u, ch := range p.late {
+		close(ch)
+		delete(p.late, u)
+	}
+	p.mu.Unlock()
 }
 
 func (p *faultProxy) serve() {
@@ -132,7 +157,36 @@ func (p *faultProxy) handle(c net.Conn, mode, up string) {
 		p.mu.Unlock()
 	}()
 	done := make(chan struct{}, 2)
-	go func() { io.Copy(u, c); done <- struct{}{} }()
+	ctl := make(chan bool, 1)
+	p.mu.Lock()
+	p.late[u] = ctl
+	p.mu.Unlock()
+	var frozen int32
+	go func() {
+		buf := make([]byte, 32*1024)
+		for {
+			n, err := c.Read(buf)
+			if n > 0 && atomic.LoadInt32(&frozen) == 0 {
+				if _, werr := u.Write(buf[:n]); werr != nil {
+					break
+				}
+			}
+			if err != nil {
+				break
+			}
+		}
+		if atomic.LoadInt32(&frozen) != 0 {
+			// the client gave up; the far end does not learn of it until reap()
+			for range ctl {
+			}
+		}
+		done <- struct{}{}
+	}()
+	go func() {
+		if v, ok := <-ctl; ok && v {
+			atomic.StoreInt32(&frozen, 1)
+		}
+	}()
 	go func() {
 		if mode == "badident" {
 			// the first reply (to IDENTIFY) keeps its framing but is not JSON; everything else passes through
@@ -151,10 +205,29 @@ func (p *faultProxy) handle(c net.Conn, mode, up string) {
 				}
 			}
 		}
-		io.Copy(c, u)
-		done <- struct{}{}
+		buf := make([]byte, 32*1024)
+		for {
+			n, err := u.Read(buf)
+			if n > 0 && atomic.LoadInt32(&frozen) == 0 {
+				if _, werr := c.Write(buf[:n]); werr != nil {
+					break
+				}
+			}
+			if err != nil {
+				break
+			}
+		}
+		if atomic.LoadInt32(&frozen) == 0 {
+			done <- struct{}{}
+		}
 	}()
 	<-done
+	p.mu.Lock()
+	if ch, ok := p.late[u]; ok && atomic.LoadInt32(&frozen) == 0 {
+		close(ch)
+		delete(p.late, u)
+	}
+	p.mu.Unlock()
 }
 
 // ---- lookupd instances ---------------------------------------------------
@@ -164,12 +237,17 @@ type lookupdInst struct {
 	http string
 }
 
-func startLookupd() (*lookupdInst, error) {
+func startLookupd() (*lookupdInst, error) { return startLookupdWith(nil) }
+
+func startLookupdWith(tweak func(*nsqlookupd.Options)) (*lookupdInst, error) {
 	o := nsqlookupd.NewOptions()
 	o.Logger = nullLogger{}
 	o.TCPAddress = "127.0.0.1:0"
 	o.HTTPAddress = "127.0.0.1:0"
 	o.BroadcastAddress = "127.0.0.1"
+	if tweak != nil {
+		tweak(o)
+	}
 	l, err := nsqlookupd.New(o)
 	if err != nil {
 		return nil, err
@@ -219,7 +297,14 @@ func (li *lookupdInst) regsOf(tcpPort int) ([]string, error) {
 		}
 	}
 	sort.Strings(out)
-	return out, nil
+	// a SET of names: while a previous connection of the same nsqd has not been reaped yet the same name is held twice
+	uniq := out[:0]
+	for i, x := range out {
+		if i == 0 || x != out[i-1] {
+			uniq = append(uniq, x)
+		}
+	}
+	return uniq, nil
 }
 
 func nsqdTopology(nd *Node) ([]string, error) {
@@ -294,7 +379,11 @@ func runLookupSync(lc *lsCase, dir string) {
 	var lds []*lookupdInst
 	var proxies []*faultProxy
 	for i := 0; i < lc.NLookupd; i++ {
-		li, err := startLookupd()
+		li, err := startLookupdWith(func(o *nsqlookupd.Options) {
+			if lc.Kind == "churnping" {
+				o.InactiveProducerTimeout = 12 * heartbeat // instead of 300 s: 20 heartbeats of nsqd's 15 s
+			}
+		})
 		if err != nil {
 			lc.Incon = err.Error()
 			return
@@ -427,6 +516,78 @@ func runLookupSync(lc *lsCase, dir string) {
 			lc.failf("[reorder] after /channel/delete + /channel/create of the same name (the deletion's notification delivered after the creation's): %s, still so after 50 heartbeat intervals", why)
 		}
 		return
+	case "churnping":
+		// topics / channels come and go in EVERY heartbeat interval for longer than the lookupd's inactive-producer
+		// timeout: the nsqd is connected and busy, so /nodes (which hides producers not refreshed for that long) keeps
+		// listing it
+		admin("/topic/create?topic=steady")
+		if ok, why := converge(50 * heartbeat); !ok {
+			lc.Incon = "no steady state before the churn: " + why
+			return
+		}
+		listed := func(li *lookupdInst) (bool, error) {
+			var nodes struct {
+				Producers []map[string]interface{} `json:"producers"`
+			}
+			st, err := httpJSON("http://"+li.http+"/nodes", &nodes)
+			if err != nil || st != 200 {
+				return false, fmt.Errorf("/nodes: %v %d", err, st)
+			}
+			for _, p := range nodes.Producers {
+				if v, ok := p["tcp_port"].(float64); ok && int(v) == tcpPort {
+					return true, nil
+				}
+			}
+			return false, nil
+		}
+		for i := 0; i < 80; i++ { // 40 heartbeats
+			if i%2 == 0 {
+				admin(fmt.Sprintf("/channel/create?topic=steady&channel=x%d", i))
+			} else {
+				admin(fmt.Sprintf("/channel/delete?topic=steady&channel=x%d", i-1))
+			}
+			time.Sleep(heartbeat / 2)
+			if i%4 == 3 {
+				for k, li := range lds {
+					ok, err := listed(li)
+					if err != nil {
+						lc.Incon = err.Error()
+						return
+					}
+					if !ok {
+						lc.failf("[churnping] after %d heartbeat intervals of channel churn nsqlookupd %d no longer lists this connected nsqd in /nodes (inactive-producer-timeout 12 heartbeats): it was not refreshed", (i+1)/2, k)
+						return
+					}
+				}
+			}
+		}
+		return
+	case "halfopen":
+		// the connection to the lookupd goes half-open (black hole): nsqd's next command times out, it reconnects and
+		// re-registers over a new connection; only later does the lookupd see the OLD connection die. What the new
+		// connection registered must still be listed afterwards.
+		admin("/topic/create?topic=steady")
+		admin("/channel/create?topic=steady&channel=c1")
+		if ok, why := converge(50 * heartbeat); !ok {
+			lc.Incon = "no steady state before the fault: " + why
+			return
+		}
+		for _, p := range proxies {
+			p.freeze()
+		}
+		time.Sleep(1500*time.Millisecond + 6*heartbeat) // > the 1 s command deadline of nsqd's lookup peer: it has reconnected
+		if ok, why := converge(50 * heartbeat); !ok {
+			lc.failf("[halfopen] after its connection was black-holed nsqd did not get its registrations back through a new one: %s", why)
+			return
+		}
+		for _, p := range proxies {
+			p.reap()
+		}
+		time.Sleep(6 * heartbeat)
+		if ok, why := converge(50 * heartbeat); !ok {
+			lc.failf("[halfopen] nsqd reconnected and re-registered after its old connection had been black-holed; when the lookupd finally saw the OLD connection die: %s, still so after 50 heartbeat intervals", why)
+		}
+		return
 	case "badident":
 		// the lookupd is unreachable while a topic is created; the next connection's IDENTIFY answer is corrupted
 		// (well framed, not JSON) on an otherwise healthy connection; after that everything is healthy
@@ -557,8 +718,10 @@ func runLookupSync(lc *lsCase, dir string) {
 	}
 	lcn.cmd("RDY", "", "10")
 	wg.Add(2)
+	var pubDone int32 // the publisher has returned: `pubs` is final (a POST in flight when `stop` is set still counts)
 	go func() {
 		defer wg.Done()
+		defer atomic.StoreInt32(&pubDone, 1)
 		for atomic.LoadInt32(&stop) == 0 {
 			st, _, err := nd.post("/pub?topic=live", []byte("x"))
 			if err != nil || st != 200 {
@@ -572,10 +735,10 @@ func runLookupSync(lc *lsCase, dir string) {
 	go func() {
 		defer wg.Done()
 		var stoppedAt time.Time
-		for atomic.LoadInt32(&stop) == 0 || atomic.LoadInt64(&recvs) < atomic.LoadInt64(&pubs) {
+		for atomic.LoadInt32(&pubDone) == 0 || atomic.LoadInt64(&recvs) < atomic.LoadInt64(&pubs) {
 			fr, ok := lcn.next(500 * time.Millisecond)
 			if !ok {
-				if atomic.LoadInt32(&stop) == 1 {
+				if atomic.LoadInt32(&pubDone) == 1 {
 					if stoppedAt.IsZero() {
 						stoppedAt = time.Now()
 					}
